@@ -42,8 +42,9 @@ def via_builder(prog, seed=None, native=None):
     use_numpy = seed is not None and rng.random() < 0.5
     use_nd = seed is not None and not use_numpy
 
-    def num(x):
-        """A number as a user's computation may deliver it: a numpy scalar of the same value."""
+    def num(x, narrow=True):
+        """A number as a user's computation may deliver it: a numpy scalar of the same value (narrow=False: no 32-bit floats
+        -- a let constant is documented to hold an int or a float, which numpy.float64 is and numpy.float32 is not)."""
         if not use_numpy:
             return x
         if seed is None or isinstance(x, bool) or not isinstance(x, (int, float)) or rng.random() > 0.35:
@@ -55,6 +56,9 @@ def via_builder(prog, seed=None, native=None):
                 return x
             choices.append("numpy-integer")
             return np.int64(x)
+        if narrow and x == x and abs(x) < 1e30 and float(np.float32(x)) == x and rng.random() < 0.6:
+            choices.append("numpy-float32")
+            return np.float32(x)  # the same number in a narrower type
         choices.append("numpy-float")
         return np.float64(x)
 
@@ -188,7 +192,7 @@ def via_builder(prog, seed=None, native=None):
             b.usepulses(s[1], s[2] if len(s) > 2 else all, unevaluated=not e)
         elif k == "let":
             e = eager()
-            r = b.let(s[1], num(s[2]), unevaluated=not e)
+            r = b.let(s[1], num(s[2], narrow=False), unevaluated=not e)
             if e:
                 objs[s[1]] = r
         elif k == "register":
